@@ -24,8 +24,9 @@ sha256; directories; symlinks), the stand-in's call log (with the hashes of the 
 the moment of each call) and its running/enabled state are reported.
 
 Input  : {"id":..,"binary":..,"setup_dir":"/var/lib/..","snap":[4 system paths],"unit_dir":..,
-          "service":..,"files":[[path,mode,hex]..],"running":b,"enabled":b,"cmds":[[args..]..]}
-Output : {"id":..,"init":STATE,"steps":[{"args":[..],"rc":n,"state":STATE,"calls":[[args,[h..]]..]}]}
+          "service":..,"files":[[path,mode,hex]..],"running":b,"enabled":b,"cmds":[[args..]..],
+          "faults":[[exit status of the k-th systemctl call of command i; 0 = behave normally]..]}
+Output : {"id":..,"init":STATE,"steps":[{"args":[..],"rc":n,"state":STATE,"calls":[[args,[h..],rc]..]}]}
 STATE  : {"files":{path:[mode,sha256]},"dirs":[..],"links":{path:target},"running":b,"enabled":b}
 """
 import ctypes
@@ -149,12 +150,15 @@ class Root:
             for line in open(p, errors="replace").read().split("\n"):
                 if not line:
                     continue
-                a, _, h = line.rpartition("|")
-                out.append([a.split(), h.split()])
+                a, h, rc = line.rsplit("|", 2)
+                out.append([a.split(), h.split(), int(rc)])
             os.unlink(p)
         return out
 
-    def run(self, args):
+    def run(self, args, faults=()):
+        fp = self.root + "/standin/state/faults"
+        with open(fp, "w") as f:
+            f.write("".join("%d\n" % int(x) for x in faults))
         try:
             root = self.root
 
@@ -184,8 +188,9 @@ def main():
         r = Root(os.path.join(scratch, "r%d" % n), sc)
         try:
             res = {"id": sc.get("id"), "init": r.state(), "steps": []}
-            for args in sc["cmds"]:
-                rc, out, err = r.run(args)
+            for k, args in enumerate(sc["cmds"]):
+                faults = (sc.get("faults") or [])[k] if k < len(sc.get("faults") or []) else []
+                rc, out, err = r.run(args, faults)
                 step = {"args": args, "rc": rc, "state": r.state(), "calls": r.calls()}
                 if verbose or rc not in (0, 1, 101):
                     step["stdout"], step["stderr"] = out, err
